@@ -469,9 +469,7 @@ theorem wp_stepLiteral (sp ep : Nat) (isQ wp0 : Bool) (s : PS) (hse : sp ≤ ep)
     apply wp_addToConcatenate E _ _ _ _ _ (Or.inr (by omega))
     intro s1 hk hu
     wp_run
-  all_goals first
-    | exact ⟨hk.pos, hk.os, hk.st⟩
-    | (trace_state; sorry)
+  all_goals exact ⟨hk.pos, hk.os, hk.st⟩
 
 theorem wp_stepHead (s : PS) (hs : s.pos ≤ E.pat.length) :
     wp (stepHead E)
@@ -533,8 +531,7 @@ theorem wp_stepIsPythonRef (o : Opts) (s : PS) (Q : Bool → PS → Prop) (R : P
     (hq : ∀ b, (b = true → s.pos + 3 ≤ E.pat.length) → Q b s) : wp (stepIsPythonRef E o) Q R s := by
   unfold stepIsPythonRef
   wp_run
-  all_goals (apply hq; intro hb; first | omega | simp at hb | skip)
-  all_goals (trace_state; sorry)
+  all_goals (apply hq; intro hb; first | omega | simp at hb)
 
 theorem isQuantCh_iff (c : Nat) : isQuantCh c = true ↔ c = 42 ∨ c = 43 ∨ c = 63 ∨ c = 123 := by
   simp [isQuantCh]
